@@ -12,6 +12,16 @@ ENG = {
 
 # id: (engine, category, technique, level text, level note, design ref)
 CHECKS = {
+ "C01": ("E3", "model_checking",
+   "exhaustive product enumeration (envelope families incl. all 4^4 re-assemblies and the complete Hamming-1/truncation neighbourhood x artifacts x metadata x enforcement maps x trust answers) on the real verifier, implication oracle with independent signature re-verification",
+   "Every member of the stated finite product is verified by the real verifier.Verify / notation.VerifyBlob; whenever verification succeeds the oracle re-verifies the raw bytes with standard-library crypto only and compares payload type, target descriptor and required metadata. Bounded-exhaustive; envelopes at Hamming distance >= 2 that are not re-assemblies are outside the bound.",
+   "Trusted: lib/refsig (stdlib crypto), lib/forge as encoder, soundness of RSA-PSS/ECDSA/SHA-2.",
+   "DESIGN.md section 5 C01"),
+ "C02": ("E3", "model_checking",
+   "exhaustive enumeration of the decision table (24 enforcement maps x trust x identity x expiry x certificate time x revocation answer x 32 plugin situations x critical-attribute state x format; quick: all cells with <= 3 deviations, thorough: full product and all 72 (base, override) ways) against a reference decision function; monotonicity relation checked on observed verdicts; call logs of scripted collaborators",
+   "Each (cell, enforcement map) is one real verifier.Verify call with scripted trust store / revocation validator / plugin manager / plugin; verdict, reported results (type, action, error) and collaborator call logs are compared with the reference decide() written from the statement; acceptance must be monotone in the map.",
+   "Trusted: the 90-line reference decide() in harness/c02 (DESIGN.md appendix A.1), lib/mocks, lib/forge. One known finding (F-02b) is listed in KNOWN_FINDINGS.txt.",
+   "DESIGN.md section 5 C02, appendix A.1"),
  "C08": ("E3+E2", "model_checking",
    "exhaustive enumeration of (policy document x statement permutation x reference) against an exact-membership reference model; explicit-state search over select/mutate/select histories",
    "Every document over the scope alphabet (quick: 5 scopes/2 statements, thorough: 7 scopes/3 statements + wildcard), every permutation of its statements and every labelled reference is evaluated on the real GetApplicableTrustPolicy; every select/mutate history up to depth 3 (4) is run on the real document; same for blob documents. Bounded-exhaustive: no sampling.",
